@@ -9,7 +9,7 @@ META = dict(
     level_text='bounded histories of the real HostConnection / HostConnectionPool code driven by real ResponseFutures: every interleaving of send / respond / client timeout / late response / defunct / replacement task / shutdown (and shutdown during a blocking connect, and shutdown at any lock acquire/release inside _replace) is a forked symbolic choice, each path decided by z3; accounting steps of both pool classes from symbolic counter states',
     level_note='task-level schedules plus pre-emption at the blocking connection_factory call; transport, timers, executor are harness fakes; request capacity is made small (2-3 streams) so that capacity limits are reached within the bound',
     technique='symbolic execution (sx proxies, LIA) of the real pool code over solver-enumerated event interleavings + z3 validity per path; inductive accounting steps from symbolic counter states',
-    bounds=dict(quick='<= 3 requests, histories of <= 7 events + drain, stream capacity 2..3, orphan threshold 1..2; borrow/return steps with in_flight, max_request_id in [0, 32767] symbolic; v1/v2 pool: 2 connections with 0..3 free ids each, <= 4 borrow/return/shutdown/task events, and the same with one shutdown() by another thread at any boundary of the pool lock (v2-pool-race)',
+    bounds=dict(quick='<= 3 requests, histories of <= 7 events + drain, stream capacity 2..3, orphan threshold 1..2; borrow/return steps with in_flight, max_request_id in [0, 32767] symbolic; v1/v2 pool: 2 connections with 0..3 free ids each, <= 4 borrow/return/shutdown/task events, and the same with one shutdown() or return_connection() by another thread at any boundary of the pool or connection locks (v2-pool-race)',
                 thorough='<= 3 requests, histories of <= 8 events + drain'),
     assumptions=['race jobs: a timer (client-side timeout, speculative execution) may fire on a thread other than the event loop\'s, so it can overlap the handling of a response - Connection.create_timer does not promise otherwise and the driver itself guards _on_timeout with the connection lock; with the bundled reactors timers run on the event-loop thread, for which these schedules are an over-approximation; two responses are never handled at the same time', 'each server answer arrives at most once per stream'],
     stubs=['transport/timers/executor: harness kit', 'protocol codec: identity'],
@@ -68,8 +68,18 @@ def h_v2_pool(V, steps=4, race=False):
         # another thread shuts the pool down at any acquire/release of the pool lock reached while no lock is held
         # (e.g. while a task is about to open, or has just opened, an additional connection)
         from harness import kit
-        pre = kit.Preempter(V, None, lambda *a: pool.shutdown(), only_unlocked=True, enabled=lambda: not pool.is_shutdown)
+        def other_thread(*a):
+            acts = ([] if pool.is_shutdown else ['shutdown']) + (['return'] if held else [])
+            act = acts[V.choice('pre_act', len(acts))]
+            V.tag('preempted_with', act)
+            if act == 'shutdown':
+                pool.shutdown()
+            else:
+                give_back(held.pop())
+        pre = kit.Preempter(V, None, other_thread, only_unlocked=True, enabled=lambda: bool(held) or not pool.is_shutdown)
         pool._lock = kit.SchedLock('pool._lock', pre)
+        for c in pool._connections:
+            c.lock = kit.SchedLock('connection.lock', pre)
 
     def on_wait(cond, timeout):
         # a borrower is blocked: other threads may return a connection and / or shut the pool down
